@@ -250,7 +250,9 @@ class CircuitTemplate(AbstractBaseTemplate):
         if edges:
             edges = update_edges(self.edges, edges)
         else:
-            edges = self.edges
+            # a derived template gets its own edge attribute dicts (as `update_edges` does), so that a later
+            # `update_var(edge_vars=...)` on it cannot reach the template it was derived from
+            edges = self.edges if in_place else deepcopy(self.edges)
 
         # either create new instance with updates or store updates on current template instance
         if not in_place:
